@@ -1,10 +1,13 @@
 """Mirror a plain taxonomy model (vf.oracles.taxonomy.T) into transient gambit ORM objects (no database)."""
 
 
-def make_taxa(model_taxa):
-	"""model_taxa: list of T (index = position). Returns list of gambit Taxon objects, same order."""
+def make_taxa(model_taxa, flags='bool'):
+	"""model_taxa: list of T (index = position). Returns list of gambit Taxon objects, same order.
+	flags: the type the report flags are given in - Python bool, numpy.bool_ (a mask computed with numpy) or int 0/1."""
 	from gambit.db.models import Taxon
-	orm = [Taxon(key=f'k{t.i}', name=t.name, distance_threshold=t.thr, report=t.report) for t in model_taxa]
+	import numpy as np
+	conv = {'bool': bool, 'numpy': np.bool_, 'int': int}[flags]
+	orm = [Taxon(key=f'k{t.i}', name=t.name, distance_threshold=t.thr if flags == 'bool' or t.thr is None else (np.float64(t.thr) if flags == 'numpy' else t.thr), report=conv(t.report)) for t in model_taxa]
 	for t, o in zip(model_taxa, orm):
 		if t.parent is not None:
 			o.parent = orm[t.parent.i]
